@@ -299,12 +299,23 @@ def check_free_recursive(ctx, rep, rule):
     draws = set()
     enters = []
     frees = []
+    from rules.shared import LocalFlow
+    lf_ = LocalFlow(fn)
+    vec_views = {t_['dest']['local'] for b_, t_ in fn.calls() if callee_name(t_).startswith('object::Object::as_vec')}
+
+    def from_elements(a):
+        # the value is (a view of) the elements of an array: directly, or through a helper's match (`o.elements()`: the elements for
+        # an array, an empty slice otherwise)
+        if 'as_vec' in str(sym(fn, a)):
+            return True
+        l_ = op_base_local(a)
+        return l_ is not None and lf_.reaches(l_, vec_views) is not None
     for b, t in fn.calls():
         n = callee_name(t)
         if n.endswith(COLL_ADD) and t['args']:
             r = _root_local(fn, t['args'][0])
             adds.setdefault(r, []).append(b)
-            if any('as_vec' in str(sym(fn, a)) for a in t['args'][1:]):
+            if any(from_elements(a) for a in t['args'][1:]):
                 enters.append((r, b))
         if n.endswith(COLL_DRAW) and t['args']:
             draws.add(_root_local(fn, t['args'][0]))
